@@ -109,6 +109,7 @@ def generate(run_seed, tier):
            'kmols': kmols, 'kt_dirs': kt_dirs,
            'cia_split': c.random() < 0.6, 'exo_orders': True,
            'cia_shared_edge': c.random() < 0.35,
+           'cia_overlap': c.random() < 0.3,
            'cia_negatives': c.random() < 0.4,
            'deep_pressures': c.random() < 0.25,
            'hdf5_variants': True,
@@ -329,6 +330,18 @@ def execute(case, keep_text=False):
                                    rs.randint(4, 12)) / 1e4
             wnB = ST.distinct_ints(rs, 10000000, 50000000,
                                    rs.randint(4, 12)) / 1e4
+            if cfg.get('cia_overlap') and not cfg.get('cia_shared_edge'):
+                # the second range lies INSIDE the span of the first (two
+                # experiments over overlapping ranges, as in N2-N2): the
+                # unified grid interleaves their points
+                lo_, hi_ = int(np.min(wnA) * 1e4) + 1, int(np.max(wnA) * 1e4)
+                taken = set(int(round(v * 1e4)) for v in wnA)
+                cand = set()
+                while len(cand) < rs.randint(4, 12):
+                    v = int(rs.randint(lo_, hi_))
+                    if v not in taken:
+                        cand.add(v)
+                wnB = np.array(sorted(cand), dtype=float) / 1e4
             if cfg.get('cia_shared_edge'):
                 # the second band starts exactly where the first one ends
                 # (both files and tables then hold that wavenumber twice)
@@ -370,6 +383,11 @@ def execute(case, keep_text=False):
                     x[i, off:off + len(wn)] = col
                 off += len(wn)
             rs.shuffle(blocks)
+            # the physical table on its ascending grid (a stable sort: a
+            # wavenumber shared by two bands keeps the band order)
+            srt = np.argsort(uni_wn, kind='stable')
+            uni_wn = uni_wn[srt]
+            x = x[:, srt]
             tabs[key] = {'T': T.tolist(), 'wn': uni_wn.tolist(),
                          'x': x.tolist(), 'blocks': blocks}
         return tabs[key]
